@@ -218,9 +218,41 @@ fn check_float(x: f64, prec: Option<usize>) -> Result<(u64, bool), Violation> {
     Ok((hash_of(&(s.len(), neg, fp.len())), x.abs() >= 1000.0))
 }
 
+/// A sink that accepts `left` characters and then fails.
+struct Choke {
+    left: usize,
+    got: String,
+}
+
+impl std::fmt::Write for Choke {
+    fn write_str(&mut self, s: &str) -> std::fmt::Result {
+        for ch in s.chars() {
+            if self.left == 0 {
+                return Err(std::fmt::Error);
+            }
+            self.left -= 1;
+            self.got.push(ch);
+        }
+        Ok(())
+    }
+}
+
+fn choked<T: std::fmt::Display>(v: T, left: usize) -> String {
+    use std::fmt::Write;
+    let mut c = Choke { left, got: String::new() };
+    let r = write!(c, "{}", v);
+    format!("{:?} after {:?}", r.is_ok(), c.got)
+}
+
 /// One formatter call of the history alphabet: label and the call itself.
 fn history_alphabet() -> Vec<(String, Box<dyn Fn() -> String + Send + Sync>)> {
     let mut v: Vec<(String, Box<dyn Fn() -> String + Send + Sync>)> = Vec::new();
+    // calls whose output sink fails after 3 characters (what was written before the failure is the result)
+    v.push(("HumanCount(123456789) into a sink that fails after 3 characters".into(), Box::new(|| choked(HumanCount(123_456_789), 3))));
+    v.push(("HumanFloatCount(-1234567.5) into a sink that fails after 3 characters".into(), Box::new(|| choked(HumanFloatCount(-1_234_567.5), 3))));
+    v.push(("HumanBytes(123456789) into a sink that fails after 3 characters".into(), Box::new(|| choked(HumanBytes(123_456_789), 3))));
+    v.push(("HumanDuration(90 s) into a sink that fails after 1 character".into(), Box::new(|| choked(HumanDuration(Duration::from_secs(90)), 1))));
+    v.push(("FormattedDuration(90000 s) into a sink that fails after 3 characters".into(), Box::new(|| choked(FormattedDuration(Duration::from_secs(90_000)), 3))));
     for x in [0.0f64, -0.0, 1234.5, -1234.5, 0.5, -0.5, 999.9995, f64::NAN, f64::INFINITY, f64::NEG_INFINITY, 1e15, 5e-324] {
         v.push((format!("HumanFloatCount({x:e})"), Box::new(move || format!("{}", HumanFloatCount(x)))));
         v.push((format!("HumanFloatCount({x:e}):.0"), Box::new(move || format!("{:.0}", HumanFloatCount(x)))));
@@ -436,7 +468,7 @@ pub fn run(tier: Tier, shard: Shard, stats: &mut Stats) {
 pub fn meta(_tier: Tier) -> Meta {
     Meta {
         level: "exploration",
-        rule: "boundary-exhaustive enumeration: HumanCount and the three byte wrappers on 0..=1e5 (2e6 thorough), every d*10^k+-1, 2^k+-2, unit boundaries +-2, u64::MAX; HumanFloatCount on 95 values x precisions default,0..=25; FormattedDuration on every second of 0..=200000 (2e6) plus boundaries and Duration::MAX; HumanDuration on every millisecond of 0..=200 s (4000 s) plus (n+1/2)*unit+-2 ms for n<=120 and every unit switch, plain and alternate; plus every sequence of two and of three calls over a 92-call alphabet of all seven wrappers (signed zeros, NaN, infinities, unit boundaries), whose last call must print what a fresh thread prints. Oracle: parse-back against exact integer references; distinct = distinct (unit, magnitude class) outputs; non-trivial = value beyond the first grouping/unit boundary".into(),
+        rule: "boundary-exhaustive enumeration: HumanCount and the three byte wrappers on 0..=1e5 (2e6 thorough), every d*10^k+-1, 2^k+-2, unit boundaries +-2, u64::MAX; HumanFloatCount on 95 values x precisions default,0..=25; FormattedDuration on every second of 0..=200000 (2e6) plus boundaries and Duration::MAX; HumanDuration on every millisecond of 0..=200 s (4000 s) plus (n+1/2)*unit+-2 ms for n<=120 and every unit switch, plain and alternate; plus every sequence of two and of three calls over a 97-call alphabet (incl. calls whose sink fails part-way) of all seven wrappers (signed zeros, NaN, infinities, unit boundaries), whose last call must print what a fresh thread prints. Oracle: parse-back against exact integer references; distinct = distinct (unit, magnitude class) outputs; non-trivial = value beyond the first grouping/unit boundary".into(),
         assumptions: vec!["HumanFloatCount reference = std's correctly rounded fixed-precision formatting, grouped, trailing zeros trimmed, sign in front".into()],
         bounds: json!({}),
         exhaustive: true,
